@@ -33,6 +33,19 @@ HIST_ASSUME = ["all events of one vBucket are fed by one goroutine at a time (go
                "Layer-A fakes of couchbase.Client / metadata.Metadata / models.Consumer are the trusted base; the fake store writes per vBucket like the Couchbase backend"]
 
 CHECKS = {
+    "C20": dict(
+        level="fault_enumeration",
+        rule="(a) AsyncOp with a fake PendingOp: completion clearly before / around / clearly after / never relative to deadlines of 1..60 ms, and "
+             "dispatch errors; (b) 15 wrappers on the wire (UpsertXattrs, GetXattrs, CreateDocument, UpdateDocument, DeleteDocument, Get, "
+             "CreatePath, cbMetadata.Save/Clear, Ping, GetFailOverLogs, GetVBucketSeqNos, GetCollectionIDs, OpenStream, CloseStream) over real "
+             "gocbcore agents against the simulated node, whose answer per matching request is generated: prompt, one of 7 error statuses, "
+             "delayed to 40 % / 150 % of the deadline, silence, connection drop (for all requests of the call or only the n-th); deadlines 120.."
+             "300 ms where configurable; wrappers with hard-coded 5 s / 60 s deadlines get prompt / error / drop (silence only in thorough). "
+             "Oracle: returns within deadline + slack; nil error only if the node sent a success reply for the call's request; never nil when "
+             "no request was confirmed; healthy node => nil; no panic; goroutines return to the baseline. non-trivial = any non-prompt behaviour",
+        assumptions=["simnode's per-request scripting is the trusted fault injector", "statuses that gocbcore retries (TMPFAIL, BUSY) surface as a timeout at the deadline, which is an error as required"],
+        units=[rapid("TestC20_AsyncOp", 400, 20000, 8, 16), rapid("TestC20_Wire", 480, 20000, 16, 16), plain("TestC20_Fixed")],
+    ),
     "C11": dict(
         level="exploration",
         rule="child process per case. direct mode: real stream on interface-level fakes, 1..3 bursts of 1..5 notifications, each a direct "
